@@ -13,7 +13,9 @@ import numpy as np
 
 from .. import env
 from ..harness import to_np
-from ..targets import PARAM_NAMES
+from ..targets import PARAM_NAMES as _PN
+
+PARAM_NAMES = list(_PN) + [f"{"qrstuvwxyz"[k % 10]}{k}" for k in range(32)]  # more names for high-dimensional specs (still unsorted)
 
 ID = "C04"
 LEVEL = "exploration"
@@ -75,6 +77,19 @@ def gen_spec(g, dt):
     kind = KINDS[g.integers(len(KINDS))]
     d = int(g.integers(1, 5))
     lo, hi = gen_bounds(g, dt, d)
+    fam = g.random()
+    if fam < 0.08:
+        # every interval of width exactly one, most of them not starting at zero (phases, fractions, unit cubes shifted)
+        lo = np.array([float(g.choice([-0.5, 1.0, -3.0, 0.0, 2.0, -1.0])) for _ in range(d)])
+        hi = lo + 1.0
+    elif fam < 0.16:
+        # many parameters with consistently narrow or consistently wide intervals: sums of logs stay moderate while
+        # products of widths leave the floating-point range
+        d = int(g.integers(8, 17))
+        c = float(g.choice([-5.0, -4.0, 5.0, 6.0] if dt == "float32" else [-12.0, -5.0, 6.0, 12.0]))
+        w = 10.0 ** (c + g.uniform(-0.2, 0.2, d))
+        lo = (g.uniform(-1, 1, d) * w).astype(dt).astype(float)
+        hi = (lo + w).astype(dt).astype(float)
     if kind in ("affine", "identity"):
         lo = np.full(d, -np.inf)
         hi = np.full(d, np.inf)
@@ -93,6 +108,7 @@ def gen_spec(g, dt):
         spec["b2u"] = bool(g.random() < 0.7)
         spec["bt"] = str(g.choice(["logit", "probit"]))
         spec["affine"] = bool(g.random() < 0.5)
+        spec["per_rev"] = bool(g.random() < 0.5)
         for j, t in enumerate(types):
             if t == "free":
                 lo[j], hi[j] = -np.inf, np.inf
@@ -184,6 +200,8 @@ def build(spec, xp, dtype_name):
     pb = {p: [float(lo[j]), float(hi[j])] for j, p in enumerate(params)}
     if kind == "composite":
         per = [p for p, t in zip(params, spec["types"]) if t == "periodic"]
+        if spec.get("per_rev"):
+            per = per[::-1]  # the list is a set of names: its order need not follow `parameters`
         return T.CompositeTransform(
             parameters=params,
             periodic_parameters=per,
